@@ -32,3 +32,28 @@ Print Assumptions C19_quotient_remainder_recompose.
 
 Example C19_example : tiger_div 65530 2 = 65533 /\ tiger_mod 65529 2 = 65535 /\ tiger_div 7 65534 = 65533.
 Proof. repeat split. Qed.     (* -6/2 = -3, -7 mod 2 = -1, 7/-2 = -3 *)
+
+(* ---- two routines written in HERA assembly (register convention), on the specification machine ------- *)
+From Coq Require Import List.
+From Hera.Lib Require Import Py Machine.
+From Hera.Spec Require Import ISA.
+From Hera.Proofs Require Import C19_Routines.
+
+(* size(s): R1 := memory[R1] (the length cell); returns to the caller; FP restored from FP_alt; SP,
+   R2..R11 and memory untouched — for every state *)
+Theorem C19_size_reg_contract : forall s, List.length (regs s) = 16%nat ->
+  let s' := run_list size_reg_code s in
+  getreg s' 1 = mem_read (mem s) (getreg s 1 mod 65536) /\ pc s' = getreg s 13 /\
+  getreg s' 14 = getreg s 12 /\ getreg s' 15 = getreg s 15 /\ mem s' = mem s /\
+  (forall r, 2 <= r <= 11 -> getreg s' r = getreg s r).
+Proof. exact size_reg_contract. Qed.
+Print Assumptions C19_size_reg_contract.
+
+(* ord(s): R1 := memory[R1 + 1] (the first character) *)
+Theorem C19_ord_reg_contract : forall s, List.length (regs s) = 16%nat ->
+  let s' := run_list ord_reg_code s in
+  getreg s' 1 = mem_read (mem s) ((getreg s 1 + 1) mod 65536) /\ pc s' = getreg s 13 /\
+  getreg s' 14 = getreg s 12 /\ getreg s' 15 = getreg s 15 /\ mem s' = mem s /\
+  (forall r, 2 <= r <= 11 -> getreg s' r = getreg s r).
+Proof. exact ord_reg_contract. Qed.
+Print Assumptions C19_ord_reg_contract.
